@@ -96,7 +96,7 @@ THEOREMS = [
         "stat_ext_def stat_ext_order_independent stat_ext_monotone_in_k "
         "form_extreme_idempotent form_extreme_keeps_parts delete_extreme_spec nested_traversal_order "
         "form_extreme_flat_is_envelope form_extreme_does_not_modify_parts aliased_first_call_modifies_part "
-        "psd_srs_env_is_max_over_cases psd_srs_case_scaling"
+        "psd_srs_env_is_max_over_cases psd_srs_case_scaling heap_run_is_run2 nested_envelope_is_recursive_extrema"
     ).split()
 ]
 TRUSTED = [
@@ -145,9 +145,10 @@ PARTIAL = (
     "full-matrix apply_uf is now proved as a whole routine with and without residual-flexibility modes, the factorisations "
     "entering as matrices with k[e,e] * KeeInv = 1, k[r,r] * KrrInv = 1 (that lu_factor / lu_solve deliver such matrices is "
     "re-measured by the `gauss` variant, not proved); rfmodes below nrb or with repeated indices are outside the theorems "
-    "(and outside what the routine documents); the store model of cla.extrema (Model/ExtremaHeap.lean) has the frame theorem "
-    "and is tied cell by cell, but its agreement with the value model (run2) is an evaluated example plus the two exact "
-    "streams, not a theorem; init_extreme_cat's copies (srs.ext deepcopy, new NaN arrays) are listed in the model header and "
+    "(and outside what the routine documents); the store model of cla.extrema (Model/ExtremaHeap.lean) covers the two-column "
+    "branch (what form_extreme / merge / the recovery routines use); its agreement with the value model (heap_run_is_run2) "
+    "is proved for histories whose abscissae are always or never given, the mixed case is tied by the heap stream only; "
+    "init_extreme_cat's copies (srs.ext deepcopy, new NaN arrays) are listed in the model header and "
     "covered by the oracle rule only; calc_stat_ext is proved per row over a field with an abstract square root; the SRS of "
     "the response PSD uses C03's vrs model with the oscillator frequencies on the analysis grid (no interpolation); "
     "solvepsd(use_apply_uf=True) is driven with vector modal data only; DR_Results.split / strip_hists / set_dr_order / "
@@ -161,11 +162,11 @@ MANIFEST = {
                   "std with ddof 1, order independent, monotone in k), apply_uf with its explicit cache for vector and full "
                   "modal matrices (full: the whole routine with and without residual-flexibility modes given as index list, "
                   "mask or integer; rows rb | el | rf written exactly once; stiffness factorisations as data with K * KInv = 1), "
-                  "nested results (delete_extreme, form_extreme idempotent and restoring after delete_extreme, parts kept, "
-                  "traversal order of all_categories / all_base_events) and a store model of cla.extrema with the frame theorem "
-                  "that forming an envelope never writes into its parts; tie by exact / numeric correspondence on the real "
-                  "code; measured only: that scipy's LU inverts the partitions, the vrs kernel (C03's model at 1e-9), agreement "
-                  "of the store model with the value model",
+                  "nested results (delete_extreme, form_extreme idempotent and restoring after delete_extreme, parts kept, the "
+                  "nested envelope = extrema applied recursively, traversal order of all_categories / all_base_events) and a "
+                  "store model of cla.extrema with the frame theorem that forming an envelope never writes into its parts and "
+                  "the refinement theorem that it computes the value model's running extreme; tie by exact / numeric correspondence on the real "
+                  "code; measured only: that scipy's LU inverts the partitions, the vrs kernel (C03's model at 1e-9)",
     "technique": "Lean 4 proof + differential correspondence + model-free oracle",
 }
 
